@@ -11,6 +11,8 @@ def scribble(rule, key, diff, **kwargs):
     reverse = rule["reverse"]
     out = list(common.default({"reverse": reverse}, key, diff))
     rule["reverse"] = "SCRIBBLED " + reverse
+    if isinstance(rule.get("comment"), list):
+        rule["comment"].append("scribbled in place")          # nested object of the attrs, mutated in place
     rule["comment"] = list(rule.get("comment", [])) + ["scribbled"]
     rule.setdefault("context", {})
     if isinstance(rule["context"], dict):
